@@ -551,6 +551,38 @@ def selfmod_unit(ctx, unit):
                         ctx.violation('malformed-wsgi-response:self-modifying-hooks', f'{mode} {route} {method} request {k}: {r.escaped!r} {r.problems}', wit)
                     elif tr != exp:
                         ctx.violation(f'hook-or-handler-trace-differs:{mode}', f'{mode} {route} {method} request {k + 1}: expected {exp}, observed {tr}', wit)
+    # hooks exchanged between requests (the number of hooks stays the same): the next request runs the hooks registered then
+    for route in ('found', '404'):
+        for method in ('GET', 'HEAD'):
+            app = ombott.Ombott()
+            tr = []
+            app.route('/found', ['GET', 'HEAD'], lambda: tr.append('handler') or 'ok')
+            b = {k: (lambda k=k: tr.append(k)) for k in ('B1', 'B2', 'B2x', 'A1', 'A2', 'A2x', 'B3')}
+            app.add_hook('before_request', b['B1'])
+            app.add_hook('before_request', b['B2'])
+            app.add_hook('after_request', b['A1'])
+            app.add_hook('after_request', b['A2'])
+            h = ['handler'] if route == 'found' else []
+            steps = [
+                (None, ['B1', 'B2'] + h + ['A2', 'A1']),
+                (lambda: (app.remove_hook('before_request', b['B2']), app.add_hook('before_request', b['B2x'])), ['B1', 'B2x'] + h + ['A2', 'A1']),
+                (lambda: (app.remove_hook('after_request', b['A2']), app.add_hook('after_request', b['A2x'])), ['B1', 'B2x'] + h + ['A2x', 'A1']),
+                (lambda: (app.remove_hook('before_request', b['B1']), app.add_hook('before_request', b['B3'])), ['B2x', 'B3'] + h + ['A2x', 'A1']),
+                (None, ['B2x', 'B3'] + h + ['A2x', 'A1']),
+            ]
+            for k, (edit, exp) in enumerate(steps):
+                if edit:
+                    edit()
+                del tr[:]
+                r = call_app(app, make_environ(method, '/found' if route == 'found' else '/missing'))
+                ctx.count('programs')
+                ctx.count('hook_traces_checked')
+                ctx.count('hooks_replaced_between_requests')
+                ctx.case(('hooks-replaced', route, method, k), nontrivial=True)
+                if r.escaped is not None or r.sr_calls != 1 or r.problems:
+                    ctx.violation('malformed-wsgi-response:self-modifying-hooks', f'hooks replaced, {route} {method} request {k}: {r.escaped!r} {r.problems}', {'unit': {'kind': 'selfmod'}})
+                elif tr != exp:
+                    ctx.violation('hook-or-handler-trace-differs:replaced-between-requests', f'{route} {method} request {k + 1}: expected {exp}, observed {tr}', {'unit': {'kind': 'selfmod'}})
     ctx.sample({'self_modifying_hooks': HOOKS_SELFMOD, 'requests_per_configuration': 3})
 
 
@@ -607,8 +639,65 @@ def badstatus_unit(ctx, unit):
                     ctx.violation('hook-or-handler-trace-differs:bad-status', f'{where}: {tr}', wit)
                 fr = check_framing(r, method)
                 if fr:
-                    ctx.violation('framing:' + fr.split(':')[0][:40], f'{where}: {fr}', wit)
+                    ctx.violation('framing:' + str(fr[0]).split(':')[0][:40], f'{where}: {fr}', wit)
     ctx.sample({'out_of_range_statuses': [repr(s) for s in BAD_STATUSES], 'edge_statuses': [repr(s) for s in EDGE_STATUSES]})
+
+
+def bigbody_unit(ctx, unit):
+    """Bodies around and beyond 64 KiB / 1 MiB, in every shape a handler may return them: Content-Length and bytes agree, nothing is lost."""
+    import ombott
+    from ombott import HTTPResponse, HTTPError
+    sizes = [65535, 65536, 65537, 100000, 131072, 131073, 200001, (1 << 20) - 1, (1 << 20) + 3]
+    for n in sizes:
+        text = ('0123456789abcdef' * (n // 16 + 1))[:n]
+        for shape in ('str', 'bytes', 'HTTPResponse', 'HTTPError page', 'list of two', 'generator', 'str non-ascii'):
+            for method in ('GET', 'HEAD'):
+                app = ombott.Ombott()
+                closed = []
+                if shape == 'str non-ascii':
+                    want = ('\xe9' + text[1:]).encode('utf8')
+                else:
+                    want = text.encode()
+
+                def h():
+                    if shape == 'str':
+                        return text
+                    if shape == 'str non-ascii':
+                        return '\xe9' + text[1:]
+                    if shape == 'bytes':
+                        return text.encode()
+                    if shape == 'HTTPResponse':
+                        return HTTPResponse(text, 201)
+                    if shape == 'HTTPError page':
+                        raise HTTPError(418, text)
+                    if shape == 'list of two':
+                        return [text[:70000], text[70000:]]
+
+                    def g():
+                        yield text[:n // 3]
+                        yield text[n // 3:]
+                    return g()
+                app.route('/big', ['GET', 'HEAD'], h)
+                r = call_app(app, make_environ(method, '/big'))
+                ctx.count('programs')
+                ctx.count('bodies_of_64KiB_and_more')
+                ctx.case(('bigbody', n, shape, method), nontrivial=True)
+                wit = {'unit': {'kind': 'note', 'body_bytes': n, 'shape': shape, 'method': method}}
+                where = f'{shape} body of {n} characters ({method})'
+                if r.escaped is not None or r.sr_calls != 1 or r.problems:
+                    ctx.violation('malformed-wsgi-response:big-body', f'{where}: {r.escaped!r} {r.problems}', wit)
+                    continue
+                ctx.count('sr_once')
+                fr = check_framing(r, method)
+                if fr:
+                    ctx.violation('content-length-differs-from-bytes-returned' if any('Content-Length' in x for x in fr) else 'framing:' + str(fr[0]).split(':')[0][:40], f'{where}: {fr}', wit)
+                    continue
+                ctx.count('content_length_checked')
+                if method == 'GET' and shape != 'HTTPError page' and r.body != want:
+                    ctx.violation('big-body-differs-from-what-the-handler-returned', f'{where}: {len(r.body)} bytes returned, {len(want)} expected', wit)
+                elif method == 'GET' and shape == 'HTTPError page' and text.encode() not in r.body:
+                    ctx.violation('big-body-differs-from-what-the-handler-returned', f'{where}: the error page does not carry the whole text ({len(r.body)} bytes)', wit)
+    ctx.sample({'body_sizes': sizes, 'shapes': 7})
 
 
 def programs(tier):
@@ -634,7 +723,7 @@ def programs(tier):
 
 def plan(tier, seed):
     combos = list(itertools.product(HOOKS, ERRH + (ERRH_MORE if tier == 'thorough' else [])))
-    return [{'kind': 'product', 'hooks': h, 'errh': e, 'tier': tier} for h, e in combos] + [{'kind': 'selfmod'}, {'kind': 'badstatus'}]
+    return [{'kind': 'product', 'hooks': h, 'errh': e, 'tier': tier} for h, e in combos] + [{'kind': 'selfmod'}, {'kind': 'badstatus'}, {'kind': 'bigbody'}]
 
 
 def product_unit(ctx, unit):
@@ -652,6 +741,8 @@ def run_unit(ctx, unit):
         selfmod_unit(ctx, unit)
     elif unit['kind'] == 'badstatus':
         badstatus_unit(ctx, unit)
+    elif unit['kind'] == 'bigbody':
+        bigbody_unit(ctx, unit)
     elif unit['kind'] == 'note':
         print('  witness:', unit)
     else:
